@@ -357,6 +357,12 @@ func runC13(c *Ctx) {
 	c.info("C13-R5", "tokenisations-examined", token.NoPos, itoa(nTok)+" positional tokenisations in "+dbPkg)
 	c.floor("C13-R5", 1)
 
+	// ---- R7 a cached builder names the table it was asked for
+	c.rule("C13-R7", "MEMO: in pkg/database no object built from a name (a table handler with its ORM, a prepared builder) is kept in a long-lived map under a key that is a lossy image of that name (ToLower, TrimSpace, …) while the object itself keeps the name as given: identifiers are double-quoted in the generated SQL and therefore case-sensitive, so `Table(\"audit\")` after `Table(\"Audit\")` would issue its statements against \"Audit\" - a table other than the one named")
+	nMemo := memoKeyAudit(c, "C13-R7", []string{dbPkg}, "Here: the cached handler's statements name the first spelling's table.")
+	c.Sites["C13-R7#table-stores-examined"] = nMemo
+	c.ob("C13-R7", dbPkg+"#table-stores-examined", token.NoPos, nMemo >= 1, "no store into a long-lived string-keyed table found in pkg/database: the rule no longer matches the code base")
+
 	// ---- R6 placeholders and bound values correspond
 	c.rule("C13-R6", "ORD/def-use: in every loop of pkg/database that collects bound values ([]interface{} appends), an iteration that can bind a list of unknown length (append(args, vs...)) never hands a number derived from the loop's position counter to a call (fmt.Sprintf(\"$%d\"), a placeholder helper): placeholder numbers come from len(args) there. Loops that bind exactly one value per iteration may number by position")
 	nLoops := placeholderNumberingAudit(c, "C13-R6", []string{dbPkg})
@@ -831,6 +837,64 @@ func placeholderNumberingAudit(c *Ctx, rule string, rels []string) int {
 					c.ob(rule, fnKey(fn)+"#loop-"+itoa(li+1)+"-placeholder-numbered-by-bound-values", spread[0].Pos(), true, "")
 				}
 			}
+		}
+	}
+	return n
+}
+
+// memoKeyAudit (MEMO): a value kept in a long-lived table (a map held in a struct field) under a key that is a lossy
+// transformation (case folding, trimming, a base name) of the very parameter the value is built from: two different
+// inputs share one entry, and the second caller gets the object built for the first - `Table("audit")` after
+// `Table("Audit")` issues statements against "Audit". Returns the number of table stores examined.
+func memoKeyAudit(c *Ctx, rule string, rels []string, why string) int {
+	lossy := map[string]bool{"strings.ToLower": true, "strings.ToUpper": true, "strings.Title": true, "strings.TrimSpace": true, "strings.Trim": true,
+		"strings.TrimLeft": true, "strings.TrimRight": true, "strings.TrimPrefix": true, "strings.TrimSuffix": true, "path/filepath.Base": true, "path.Base": true,
+		"strings.ToValidUTF8": true, "strings.Map": true, "strings.ReplaceAll": true, "strings.Replace": true}
+	n := 0
+	for _, rel := range rels {
+		for _, fn := range c.srcFuncs(rel) {
+			k := 0
+			eachInstr(fn, func(_ *ssa.BasicBlock, _ int, ins ssa.Instruction) {
+				mu, ok := ins.(*ssa.MapUpdate)
+				if !ok {
+					return
+				}
+				u, ok := mu.Map.(*ssa.UnOp)
+				if !ok {
+					return
+				}
+				if _, isField := u.X.(*ssa.FieldAddr); !isField {
+					return
+				}
+				if !isStringType(mu.Key.Type()) {
+					return
+				}
+				n++
+				// the key is a lossy image of a string parameter …
+				var lossyCall *ssa.Call
+				var src *ssa.Parameter
+				derivesFrom(mu.Key, func(v ssa.Value) bool {
+					if cl, ok := v.(*ssa.Call); ok && lossy[callName(cl)] && lossyCall == nil {
+						for _, a := range cl.Call.Args {
+							if p, ok := a.(*ssa.Parameter); ok && isStringType(p.Type()) {
+								lossyCall, src = cl, p
+							}
+						}
+					}
+					return false
+				})
+				if lossyCall == nil {
+					return
+				}
+				// … and the key reaches the parameter only through that call, while the value is built from the parameter itself
+				keyDirect := derivesFromAvoiding(mu.Key, lossyCall, func(v ssa.Value) bool { return v == ssa.Value(src) })
+				valDirect := derivesFromAvoiding(mu.Value, lossyCall, func(v ssa.Value) bool { return v == ssa.Value(src) })
+				if keyDirect || !valDirect {
+					return
+				}
+				k++
+				c.ob(rule, fnKey(fn)+"#table-key-covers-what-the-entry-was-built-from-"+itoa(k), mu.Pos(), false, "an entry built from the parameter "+src.Name()+" is filed under "+short(callName(lossyCall))+"("+src.Name()+"): inputs that differ only in what that call discards share one entry, and the later caller is handed the object built for the earlier one. "+why)
+			})
 		}
 	}
 	return n
